@@ -69,6 +69,41 @@ def run_case(args):
             q = g.query()
             stmts.append((q.sql, q))
     plain = [(sql, (q.order if q else None), (sorted(q.tags) if q else None)) for sql, q in stmts]
+    # key-range probes (a stream of their own, appended after everything else): for key values the table holds - duplicated ones
+    # first, their runs may cross a block boundary - every comparison of the key with that value; on disk these become range scans
+    # that seek through the block index, in memory a plain filter
+    rng2 = random.Random(f"c05b-{seed}-{idx}")
+    for t in tables:
+        kc = t.pk()
+        if kc is None or not t.rows or kc.typ not in ("INT", "BIGINT", "SMALLINT", "VARCHAR"):
+            continue
+        ki = t.cols.index(kc)
+        vals = [r[ki] for r in t.rows if r[ki] is not None]
+        dups = sorted({v for v in vals if vals.count(v) > 1}, key=str)
+        pick = rng2.sample(dups, min(3, len(dups))) + rng2.sample(sorted(set(vals), key=str), min(2, len(set(vals))))
+        for v in pick:
+            op = rng2.choice([">=", "=", ">=", "=", ">", "<=", "<"])
+            plain.append((f"SELECT * FROM {t.name} WHERE {kc.name} {op} {lit(str(v) if kc.typ == 'VARCHAR' else v, kc.typ)}", None, ["pk-range-probe", "pk-range-probe:duplicated-key" if v in dups else "pk-range-probe:single-key"]))
+    if rng2.random() < 0.3:
+        # a table of its own whose INT key has long runs of equal values inside one row-set (runs that end and start blocks),
+        # probed with every comparison at every key value, between deletes and a compaction pass
+        nk = rng2.choice([3, 6, 12])
+        nrows = rng2.choice([40, 90, 200])
+        keys = [rng2.randrange(nk) * rng2.choice([1, 1, 3]) for _ in range(nrows)]
+        plain.append(("CREATE TABLE dk(k INT PRIMARY KEY, v INT)", None, None))
+        cut = rng2.choice([nrows, nrows, nrows // 2])
+        for part in (list(enumerate(keys))[:cut], list(enumerate(keys))[cut:]):
+            if part:
+                plain.append(("INSERT INTO dk VALUES " + ", ".join(f"({kv}, {i})" for i, kv in part), None, None))
+        plain.append((f"SET mock_rowcount_dk = {nrows}", None, None))
+        for rnd in range(2):
+            for kv in sorted(set(keys)):
+                for op in rng2.sample([">=", "=", ">", "<=", "<"], 2) + [">="]:
+                    plain.append((f"SELECT * FROM dk WHERE k {op} {kv}", None, ["dup-key-run-probe"]))
+            if rnd == 0:
+                plain.append((f"DELETE FROM dk WHERE v % {rng2.choice([2, 3, 7])} = 0", None, None))
+                if rng2.random() < 0.5:
+                    plain.append(("<tick>", None, None))
     res = execute(plain, layouts)
     res.update(idx=idx, seed=seed)
     if res["violations"]:
